@@ -66,7 +66,16 @@ def _case(draw, tier):
             keep = draw(st.lists(st.integers(0, (1 << n) - 1), min_size=1, max_size=1 << n, unique=True))
             ranks = [r if w in keep else None for w, r in enumerate(ranks)]
     else:
-        atoms, conds = draw(st.one_of(gen.strong_base(1, 4, 4, consts=False), gen.layered_base(2, 3, 4)))
+        if kind == "c" and draw(st.integers(0, 3)) == 0:
+            # ten or more conditionals (two-digit indices)
+            rnd = gen.rng(draw(st.integers(0, 2**32)))
+            for _ in range(50):
+                atoms, conds = gen.r_literal_base(rnd, rnd.randint(4, 5), rnd.randint(11, 14), max_ant=2)
+                conds = gen.repair_strong(atoms, conds)
+                if len(conds) >= 10:
+                    break
+        else:
+            atoms, conds = draw(st.one_of(gen.strong_base(1, 4, 4, consts=False), gen.layered_base(2, 3, 4)))
         n = len(atoms)
         ranks = None
         base = [[i, fm.to_json(B), fm.to_json(A)] for i, (B, A) in enumerate(conds, 1)]
@@ -173,6 +182,8 @@ def run_case(case, ctx):
         ctx.stratum("skipped:construction-failed")  # C16 / C17 / C18 own construction
         return []
     ctx.stratum(f"kind:{kind}")
+    if len(base) >= 10:
+        ctx.stratum("ten-or-more-conditionals")
     info = {"kind": kind, "atoms": atoms, "base": [f"{k}:{fm.cond_text(B, A)}" for k, B, A in base], "pre": case["pre"]}
     worlds = [world_str(w, n) for w in range(1 << n)]
     if kind == "custom":
@@ -400,4 +411,4 @@ def shrink(case):
 
 
 def required_strata(tier):
-    return ["kind:custom", "custom:partial-rank-map", "kind:z", "kind:c", "partial-state", "fresh-interpreter", "failed-save"]
+    return ["ten-or-more-conditionals", "kind:custom", "custom:partial-rank-map", "kind:z", "kind:c", "partial-state", "fresh-interpreter", "failed-save"]
